@@ -40,6 +40,8 @@ func (r *Rng) Byte() byte           { return byte(r.U64()) }
 
 func (r *Rng) Pick(xs ...int) int { return xs[r.Intn(len(xs))] }
 
+func (r *Rng) PickStr(xs ...string) string { return xs[r.Intn(len(xs))] }
+
 func (r *Rng) Bytes(n int) []byte {
 	b := make([]byte, n)
 	for i := range b {
